@@ -52,6 +52,8 @@ const (
 var c09ErrInjected = errors.New("c09: injected source error")
 var c09ErrSink = errors.New("c09: injected sink failure")
 
+var c09RelErr = errors.New("the caller's own processing error")
+
 func c09ErrCode(err error) int {
 	switch {
 	case err == nil:
@@ -436,7 +438,12 @@ func c09RunReader(kind int, p []V, ops []V) V {
 			out = Ls(I(5), I(r.ReadLen()))
 		case 5:
 			liveok = c09LiveOK(live) // every live slice is re-read right before the Release
-			r.Release(nil)
+			// Release(e): e is the caller's own processing error; it must make no difference to the reader
+			if relN++; relN&1 == 0 {
+				r.Release(c09RelErr)
+			} else {
+				r.Release(nil)
+			}
 			live = nil
 			out = Ls(I(3))
 		case 6:
